@@ -18,11 +18,12 @@ RULE = ("valid: lattice die (unit dyadic or decimal such as 0.1/0.3/0.0025/2.5, 
         "parsed tree, YAML text (flow or block), file, or 'WxH'. Oracle in Fractions: reported regions inside the die, pairwise "
         "disjoint, areas sum to the die, every Hanan cell of the exact description covered exactly once, inputs reported unchanged "
         "with their tag. invalid: the same plus one region (or fixed rectangle) overlapping another by >= one lattice cell or "
-        "sticking out of the die by >= one unit; Die(...) must raise. non-trivial = (>= 2 input regions and >= 2 ground regions) or "
+        "sticking out of the die by >= one unit, or overlapping an input by 0.001-0.03 unit (thin-overlap); Die(...) must raise. non-trivial = (>= 2 input regions and >= 2 ground regions) or "
         "a rejected description; distinct = distinct case.")
 ASSUMPTIONS = [
     "length tolerance 1e-9 x die size, area tolerance 1e-9 x die area for the float results; input regions are compared with ==",
     "any exception raised by Die(...) on an invalid description counts as rejection",
+    "thin overlaps (0.001-0.03 unit) are generated for lattice units >= 0.1 only, where the overlapping area is at least 80 times the tolerance of the die's own area check",
     "input regions are compared as multisets per list (blockages, specialised, fixed): the statement does not fix an order",
 ]
 
@@ -52,10 +53,34 @@ def die_in(draw, invalid=False):
     c["mut"] = None
     if invalid:
         W, H = c["W"], c["H"]
-        kind = draw(st.sampled_from(["overlap", "overlap", "outside"]))
+        kind = draw(st.sampled_from(["overlap", "overlap", "outside", "thin-overlap"]))
+        if kind == "thin-overlap" and Fr(c["unit"]) < Fr(1, 10):
+            kind = "overlap"  # (on tiny lattices a 0.001-unit overlap comes within two orders of magnitude of the die's own tolerance)
+        if kind == "thin-overlap":
+            # the same die on a lattice 1000 times finer, plus a region that overlaps an input by a few thousandths of a unit
+            F = 1000
+            c["unit"] = X.dec(Fr(c["unit"]) / F)
+            W, H = c["W"], c["H"] = c["W"] * F, c["H"] * F
+            c["regions"] = [[v * F for v in r[:4]] + [r[4]] for r in c["regions"]]
+            c["fixed"] = [[[v * F for v in r] for r in rl] for rl in c["fixed"]]
+            c["movable"] = [[v * F for v in r] for r in c.get("movable") or []]
+            c["extra"] = [[a, x * F, y * F] for a, x, y in c.get("extra") or []]
         inputs = [r[:4] for r in c["regions"]] + [r for rl in c["fixed"] for r in rl]
         as_fixed = draw(_i(0, 3)) == 0
-        if kind == "overlap":
+        if kind == "thin-overlap":
+            if not inputs:
+                base = [v * F for v in draw(L.int_rect(W // F, H // F))]
+                c["regions"].append(base + [draw(st.sampled_from(D.TAGS))])
+                inputs = [base]
+            R = inputs[draw(_i(0, len(inputs) - 1))]
+            d = draw(st.sampled_from([1, 3, 10, 30]))
+            if draw(st.booleans()):
+                new = [R[2] - d, R[3] - d, R[2], R[3]]  # a d x d corner of R
+            elif draw(st.booleans()):
+                new = [R[0], R[1], R[0] + d, R[3]]  # a strip of width d along R's left edge
+            else:
+                new = [R[0], R[3] - d, R[2], R[3]]  # a strip of height d along R's top edge
+        elif kind == "overlap":
             if not inputs:
                 base = draw(L.int_rect(W, H))
                 c["regions"].append(base + [draw(st.sampled_from(D.TAGS))])
@@ -275,5 +300,5 @@ def subchecks():
                       "float-rounding", "decimal-unit", "single-region-without-list", "netlist-with-soft-modules",
                       "tiny-module-in-netlist", "large-die", "description-used-twice", "netlist-with-movable-hard-modules")),
         Sub("invalid", run_invalid, strategy=die_in(True), n_quick=6000, n_thorough=120000, fuzz_thorough=3000,
-            required=("mut-overlap", "mut-outside")),
+            required=("mut-overlap", "mut-outside", "mut-thin-overlap")),
     ]
